@@ -528,12 +528,15 @@ class MemoAnalysis:
                 for t in s.targets:
                     assign_target(t, why, env, s.lineno)
                     # M[K] = v: v IS the cached object from here on
-                    if sources and isinstance(t, ast.Subscript) and any(c.matches(t.value) for c in A.cells if c.kind != 'scalar') \
-                            and isinstance(s.value, ast.Name):
-                        env[s.value.id] = 'stored in the cache %s' % _txt(t.value)
-                    if sources and isinstance(t, ast.Attribute) and any(c.kind == 'scalar' and c.matches(t) for c in A.cells) \
-                            and isinstance(s.value, ast.Name):
-                        env[s.value.id] = 'stored in the cache %s' % _txt(t)
+                    # (a display stored in the cell - `M[K] = (tag, v)` - makes its elements cached objects just the same)
+                    stored_names = [s.value] if isinstance(s.value, ast.Name) else (
+                        [x for x in s.value.elts if isinstance(x, ast.Name)] if isinstance(s.value, (ast.Tuple, ast.List)) else [])
+                    if sources and isinstance(t, ast.Subscript) and any(c.matches(t.value) for c in A.cells if c.kind != 'scalar'):
+                        for x in stored_names:
+                            env[x.id] = 'stored in the cache %s' % _txt(t.value)
+                    if sources and isinstance(t, ast.Attribute) and any(c.kind == 'scalar' and c.matches(t) for c in A.cells):
+                        for x in stored_names:
+                            env[x.id] = 'stored in the cache %s' % _txt(t)
                 return env
             if isinstance(s, ast.AnnAssign):
                 if s.value is None:
